@@ -37,6 +37,25 @@ func WideLists() map[string]*sbom.NodeList {
 		chain.Edges = append(chain.Edges, edges[i])
 	}
 	out["chain20"] = chain
+	// the next orders of magnitude: a containment chain 300 deep and a star with 2000 leaves
+	chain300 := &sbom.NodeList{Nodes: []*sbom.Node{n("r")}, RootElements: []string{"r"}}
+	prev = "r"
+	for i := 0; i < 300; i++ {
+		id := fmt.Sprintf("d%03d", i)
+		chain300.Nodes = append(chain300.Nodes, n(id))
+		chain300.Edges = append(chain300.Edges, &sbom.Edge{From: prev, Type: sbom.Edge_contains, To: []string{id}})
+		prev = id
+	}
+	out["chain300"] = chain300
+	star2000 := &sbom.NodeList{Nodes: []*sbom.Node{n("r")}, RootElements: []string{"r"}}
+	e2 := &sbom.Edge{From: "r", Type: sbom.Edge_contains}
+	for i := 0; i < 2000; i++ {
+		id := fmt.Sprintf("leaf-%04d", (i*7)%2000)
+		star2000.Nodes = append(star2000.Nodes, n(id))
+		e2.To = append(e2.To, id)
+	}
+	star2000.Edges = []*sbom.Edge{e2}
+	out["star2000"] = star2000
 	// bushy
 	bushy := &sbom.NodeList{Nodes: []*sbom.Node{n("r")}, RootElements: []string{"r"}}
 	for a := 0; a < 4; a++ {
